@@ -23,6 +23,7 @@ so `pickNodes` returns exactly n different children (`pick_shape`).
 import SwV.Model.C10
 import SwV.Spec.C10
 import SwV.Lemmas.C10
+import SwV.Gen.C10
 namespace SwV.Props.C10
 open SwV.Model.C10 SwV.Spec.C10 SwV.Lemmas.C10
 
@@ -576,5 +577,171 @@ example : findEmptySlots
     never a server without a slot (here: the draw r = 0 still finds node 112; with max 2 / 25 shards on the
     only node the rack is no candidate at all) -/
 example : (⟨111, ⟨2, 0, 0, 25⟩, {}⟩ : DN).avail 0 = -1 := by decide
+
+/-! ## T1 bridges: facts regenerated from the source by `extract` (props/C10/extract.json → `SwV.Gen.C10`)
+
+Each theorem states the text of the decisive Go condition as it stands in the working tree and, next to it,
+the model expression that mirrors it; an edit to the Go condition changes the generated string and breaks the
+theorem of that name. -/
+
+/-- `erasure_coding.DataShardsCount`, the divisor in `AvailableSpaceFor`, is the `10` of `availC`. -/
+theorem bridge_avail_const :
+    SwV.Gen.C10.DataShardsCount = 10 ∧
+    ∀ c : Cnt, availC c = (if c.ec > 0 then c.max + c.rem - c.vol - c.ec / SwV.Gen.C10.DataShardsCount - 1
+                           else c.max + c.rem - c.vol) := by
+  refine ⟨rfl, fun c => ?_⟩
+  simp only [availC, SwV.Gen.C10.DataShardsCount]
+
+/-- the three statements of `NodeImpl.AvailableSpaceFor` (`availC` mirrors them one by one) -/
+theorem bridge_avail_text :
+    SwV.Gen.C10.avail_base = "freeVolumeSlotCount := t.maxVolumeCount + t.remoteVolumeCount - t.volumeCount" ∧
+    SwV.Gen.C10.avail_ec_cond = "t.ecShardCount > 0" ∧
+    SwV.Gen.C10.avail_ec_assign = "freeVolumeSlotCount = freeVolumeSlotCount - t.ecShardCount/erasure_coding.DataShardsCount - 1" := by
+  decide
+
+/-- `DiskUsageCounts.FreeSpace` (the same three statements on receiver `a`; translated by the extractor with
+    Go's int64 wrap-around) computes `availC` for every counter record without int64 overflow. -/
+theorem bridge_avail_translated (c : Cnt) (act : Int)
+    (hm : -1099511627776 ≤ c.max ∧ c.max ≤ 1099511627776) (hr : -1099511627776 ≤ c.rem ∧ c.rem ≤ 1099511627776)
+    (hv : -1099511627776 ≤ c.vol ∧ c.vol ≤ 1099511627776) (he : c.ec ≤ 1099511627776) :
+    SwV.Gen.C10.DiskUsageCounts_FreeSpace c.vol c.rem act c.ec c.max = availC c := by
+  simp only [SwV.Gen.C10.DiskUsageCounts_FreeSpace, availC, SwV.Go.wrapS, SwV.Go.tdiv, decide_eq_true_eq]
+  split
+  · rename_i h
+    rw [Int.tdiv_eq_ediv_of_nonneg (by omega)]
+    omega
+  · omega
+
+example : SwV.Gen.C10.DiskUsageCounts_FreeSpace 3 1 0 25 8 = availC ⟨8, 3, 1, 25⟩ :=
+  bridge_avail_translated ⟨8, 3, 1, 25⟩ 0 (by decide) (by decide) (by decide) (by decide)
+
+theorem not_decide_lt_nat (a b : Nat) : (!decide (a < b)) = decide (b ≤ a) := by
+  by_cases h : a < b
+  · have : ¬ b ≤ a := by omega
+    simp [h, this]
+  · have : b ≤ a := by omega
+    simp [h, this]
+
+theorem not_decide_lt_int (a b : Int) : (!decide (a < b)) = decide (b ≤ a) := by
+  by_cases h : a < b
+  · have : ¬ b ≤ a := by omega
+    simp [h, this]
+  · have : b ≤ a := by omega
+    simp [h, this]
+
+/-- model form of a placement preference: `option.X != "" && node.IsX() && node.Id() != NodeId(option.X)` -/
+def prefMismatch (want : Option Nat) (id : Nat) : Bool :=
+  match want with | some i => !(id == i) | none => false
+
+/-- first closure of `findEmptySlotsForOneVolume` (main data center): the four error conditions in the
+    source, and `dcFilter` = none of them holds. -/
+theorem bridge_dc_filter :
+    SwV.Gen.C10.pick_dc_n = "rp.DiffDataCenterCount + 1" ∧
+    SwV.Gen.C10.dc_pref = "option.DataCenter != \"\" && node.IsDataCenter() && node.Id() != NodeId(option.DataCenter)" ∧
+    SwV.Gen.C10.dc_racks = "len(node.Children()) < rp.DiffRackCount+1" ∧
+    SwV.Gen.C10.dc_free = "node.AvailableSpaceFor(option) < int64(rp.DiffRackCount+rp.SameRackCount+1)" ∧
+    SwV.Gen.C10.dc_node_slot = "n.AvailableSpaceFor(option) >= 1" ∧
+    SwV.Gen.C10.dc_rack_ok = "possibleDataNodesCount >= rp.SameRackCount+1" ∧
+    SwV.Gen.C10.dc_racks_ok = "possibleRacksCount < rp.DiffRackCount+1" ∧
+    ∀ (op : Opt) (d : DC), dcFilter op d =
+      (!(prefMismatch op.dc d.id)
+       && !(decide (d.racks.length < op.y + 1))
+       && !(decide (d.avail op.disk < ((op.y + op.z + 1 : Nat) : Int)))
+       && !(decide ((d.racks.filter fun rk =>
+              decide ((rk.nodes.filter fun n => decide (n.avail op.disk ≥ 1)).length ≥ op.z + 1)).length < op.y + 1))) := by
+  refine ⟨by decide, by decide, by decide, by decide, by decide, by decide, by decide, fun op d => ?_⟩
+  simp only [dcFilter, prefMismatch, nodesWithSlot, not_decide_lt_nat, not_decide_lt_int]
+  cases op.dc <;> simp
+
+/-- second closure (main rack) -/
+theorem bridge_rack_filter :
+    SwV.Gen.C10.pick_rack_n = "rp.DiffRackCount + 1" ∧
+    SwV.Gen.C10.rack_pref = "option.Rack != \"\" && node.IsRack() && node.Id() != NodeId(option.Rack)" ∧
+    SwV.Gen.C10.rack_free = "node.AvailableSpaceFor(option) < int64(rp.SameRackCount+1)" ∧
+    SwV.Gen.C10.rack_nodes = "len(node.Children()) < rp.SameRackCount+1" ∧
+    SwV.Gen.C10.rack_node_slot = "n.AvailableSpaceFor(option) >= 1" ∧
+    SwV.Gen.C10.rack_nodes_ok = "possibleDataNodesCount < rp.SameRackCount+1" ∧
+    ∀ (op : Opt) (rk : Rack), rackFilter op rk =
+      (!(prefMismatch op.rack rk.id)
+       && !(decide (rk.avail op.disk < ((op.z + 1 : Nat) : Int)))
+       && !(decide (rk.nodes.length < op.z + 1))
+       && !(decide ((rk.nodes.filter fun n => decide (n.avail op.disk ≥ 1)).length < op.z + 1))) := by
+  refine ⟨by decide, by decide, by decide, by decide, by decide, by decide, fun op rk => ?_⟩
+  simp only [rackFilter, prefMismatch, nodesWithSlot, not_decide_lt_nat, not_decide_lt_int]
+  cases op.rack <;> simp
+
+/-- third closure (main server) -/
+theorem bridge_node_filter :
+    SwV.Gen.C10.pick_node_n = "rp.SameRackCount + 1" ∧
+    SwV.Gen.C10.node_pref = "option.DataNode != \"\" && node.IsDataNode() && node.Id() != NodeId(option.DataNode)" ∧
+    SwV.Gen.C10.node_free = "node.AvailableSpaceFor(option) < 1" ∧
+    ∀ (op : Opt) (n : DN), nodeFilter op n =
+      (!(prefMismatch op.node n.id) && !(decide (n.avail op.disk < 1))) := by
+  refine ⟨by decide, by decide, by decide, fun op n => ?_⟩
+  simp only [nodeFilter, prefMismatch, not_decide_lt_int]
+  cases op.node <;> simp
+
+/-- the reservations in the other racks / data centers: the draw is below the node's own free count, the drawn
+    value is what `ReserveOneVolume` gets, and a failed reservation returns at once (`reserveRacks`, `reserveDCs`). -/
+theorem bridge_other_reservations :
+    SwV.Gen.C10.other_rack_draw = "rack.AvailableSpaceFor(option)" ∧
+    SwV.Gen.C10.other_dc_draw = "datacenter.AvailableSpaceFor(option)" ∧
+    SwV.Gen.C10.other_rack_reserve_r = "r" ∧ SwV.Gen.C10.other_dc_reserve_r = "r" ∧
+    SwV.Gen.C10.other_rack_ok = "e == nil" ∧ SwV.Gen.C10.other_dc_ok = "e == nil" := by decide
+
+/-- `NodeImpl.PickNodesByWeight`: candidate filter, weights, the interval scan and the choice of the rest
+    nodes (`pickNodes`, `scan`, `sortW`). -/
+theorem bridge_pick_nodes :
+    SwV.Gen.C10.pick_skip = "node.AvailableSpaceFor(option) <= 0" ∧
+    SwV.Gen.C10.pick_total = "totalWeights += node.AvailableSpaceFor(option)" ∧
+    SwV.Gen.C10.pick_weight = "node.AvailableSpaceFor(option)" ∧
+    SwV.Gen.C10.pick_few = "len(candidates) < numberOfNodes" ∧
+    SwV.Gen.C10.pick_rounds = "i < len(candidates)" ∧
+    SwV.Gen.C10.pick_draw = "totalWeights" ∧
+    SwV.Gen.C10.pick_interval = "(weightsInterval >= lastWeights) && (weightsInterval < lastWeights+weights)" ∧
+    SwV.Gen.C10.pick_zero = "candidatesWeights[k] = 0" ∧
+    SwV.Gen.C10.pick_total_dec = "totalWeights -= weights" ∧
+    SwV.Gen.C10.pick_advance = "lastWeights += weights" ∧
+    SwV.Gen.C10.pick_first_ok = "err == nil" ∧
+    SwV.Gen.C10.pick_rest_cond = "k >= numberOfNodes-1" ∧
+    SwV.Gen.C10.pick_rest_head = "restNodes = sortedCandidates[:numberOfNodes-1]" ∧
+    SwV.Gen.C10.pick_rest_pre = "sortedCandidates[:k]" ∧
+    SwV.Gen.C10.pick_rest_suf = "sortedCandidates[k+1 : numberOfNodes]" := by decide
+
+/-- the model's interval scan takes the first candidate whose interval `[last, last+w)` holds the draw — the
+    source condition `pick_interval` with `last` subtracted on both sides. -/
+theorem bridge_scan_interval {α : Type} (c : α) (w r : Int) (rest : List (α × Int)) (h0 : 0 ≤ r) :
+    (scan ((c, w) :: rest) r = some ([], (c, w), rest)) ↔ (r ≥ 0 ∧ r < 0 + w) := by
+  simp only [scan]
+  constructor
+  · intro h
+    by_cases hw : r < w
+    · omega
+    · simp only [hw, if_false] at h
+      cases hs : scan rest (r - w) with
+      | none => simp [hs] at h
+      | some t => obtain ⟨b, x, a⟩ := t; simp [hs] at h
+  · intro h; have : r < w := by omega
+    simp [this]
+
+/-- `NodeImpl.ReserveOneVolume` (`reserveLoopN`, `reserveLoopR`) -/
+theorem bridge_reserve :
+    SwV.Gen.C10.reserve_skip = "freeSpace <= 0" ∧
+    SwV.Gen.C10.reserve_pass = "r >= freeSpace" ∧
+    SwV.Gen.C10.reserve_dec = "r -= freeSpace" ∧
+    SwV.Gen.C10.reserve_leaf = "node.IsDataNode() && node.AvailableSpaceFor(option) > 0" ∧
+    SwV.Gen.C10.reserve_recurse_r = "r" ∧
+    SwV.Gen.C10.reserve_recurse_ok = "err == nil" ∧
+    (∀ (t : Nat) (n : DN) (rest : List DN) (r : Int), reserveLoopN t (n :: rest) r =
+      (if n.avail t ≤ 0 then reserveLoopN t rest r
+       else if r ≥ n.avail t then reserveLoopN t rest (r - n.avail t) else some n)) := by
+  refine ⟨by decide, by decide, by decide, by decide, by decide, by decide, fun t n rest r => rfl⟩
+
+/-- weakest supplement: hashes of the whole mirrored functions (loop structure, order of the steps) -/
+theorem bridge_pins :
+    SwV.Gen.C10.src_AvailableSpaceFor = "64239316e6dcd5ac" ∧
+    SwV.Gen.C10.src_PickNodesByWeight = "7e41c2bf6b33195d" ∧
+    SwV.Gen.C10.src_ReserveOneVolume = "4a322c1638ed961f" ∧
+    SwV.Gen.C10.src_findEmptySlotsForOneVolume = "9fe46b5b07987aba" := by decide
 
 end SwV.Props.C10
